@@ -5,6 +5,7 @@ from lib.mirq import Slice, calls_matching, edge_dominates, result_exits
 from lib.mirfwd import (bool_switches, callee_of, cycle_members, blocks_between, derives_from_call, edges_dominate, empty_edges, forwarded_sites, helper_frames, ip_roots, result_checked, result_edges)
 
 TECHNIQUE = ("MIR CFG path rules (dominance, must-pass-through pairing, edge dominance) + operand provenance + who-may-call on the include expander; "
+             "must-pass-through of provenance-classified appends between the recursive call and the loop head (C20-R12, field-sensitive value leaves: lib/mirfwd.value_leaves); "
              "roles by type / callee / recursion cycle, calls followed through private helpers and closures with parameters bound to arguments (lib/mirfwd.py); "
              "finite table: the two fence scanners (closed line predicates) evaluated from their expanded syntax over a generated table of lines "
              "against the fence definition (lib/rsinterp.py, rules/c20_tables.py)")
@@ -28,6 +29,11 @@ EXPLANATION = (
     'run) on a generated table of ~1160 lines (indentation 0-5 or tab x marker x run 1-6 x what follows the run; close test x opening marker x opening length) and must agree with the fence '
     'definition (at most three spaces, at least three identical ` or ~; closes iff same marker, run at least as long, only blanks behind the run): what is decided is the decision of each scanner '
     'on every table row - an offset, bound or character set that is wrong at some indentation / length shows as a wrong row - not the behaviour on lines outside the table.'
+    ' (R12, rules/c20_splice.py) exact splice as a path property of the token expander\'s MIR: every append to the returned accumulator inside the line loop is classified by the provenance of what it '
+    'appends (result of the recursive call / the terminator selected between a newline constant and "" by a newline test on the current line, or the tail of the line / the whole current line / the line body), '
+    'and it is decided that after the recursive call every path back to the loop head or the Ok exit passes an append of the call\'s result and behind it one of the line\'s own terminator and none of the line itself, '
+    'that every iteration without a recursive call passes an append of the whole line (or body and terminator), each once, a skip under an emptiness test of the skipped text being accepted; decided is which '
+    'values reach the accumulator on which paths, not the resulting text itself (string contents, CRLF handling and the order inside a single format string are not).'
 )
 
 HS = r"std::collections::hash::set::HashSet::<T, S, A>::"
@@ -516,6 +522,13 @@ def check_guarded(F, rep, R, cg, bodies):
     run_r7(F, rep, rep.tier, close_names)
     run_r8(F, rep, cg, sorted(reentry), inlined_expander, name)
     run_r9(F, rep, R, mir9, cg)
+    from rules.c20_splice import run_splice
+    if inlined_expander and not reentry:
+        rep.note("undecided", "C20-R12: the token expander is inlined into the guarded function (direct recursion); the splice clauses are not decided on this shape")
+    for tname in sorted(reentry):
+        run_splice(rep, cg, tname, name, cycle_fns)
+    from rules.c20_splice import run_result_sites
+    run_result_sites(rep, cg, cycle_fns, name)
     from rules.c20_tables import run_tables
     run_tables(F, rep, R, cg, opener_fns, close_fns, sorted(f for f in verdicts if all(v[0] for v in verdicts[f])))
 
